@@ -171,6 +171,15 @@ func (P *Program) VerifyFunc(fn *ssa.Function) (res *FuncResult) {
 			}
 			if !con.AssignsAll {
 				c.frameObligations(fr, ex, locs, name, props)
+			} else if con.NoGhost {
+				gn, gs := c.ghostLeaves()
+				for i, leaf := range gn {
+					cur := c.H(ex.st, leaf, gs[i])
+					init := c.H(fr.old, leaf, gs[i])
+					if cur != init {
+						c.oblige("frame", fmt.Sprintf("%s#frame{%s}", name, leaf), "", props, eq(cur, init), ex.site.Pos(), "declared 'noghost': ghost state unchanged: "+leaf)
+					}
+				}
 			}
 		case "panic":
 			c.atAsserts(fr, ex, "panic")
